@@ -74,3 +74,42 @@ M('C07', 'its-deploy-remote-no-auth', ITS, '        caller.require_auth();\n\n  
 M('C07', 'example-send-no-auth', EX, '        caller.require_auth();\n\n        gas_service.pay_gas(', '        gas_service.pay_gas(', 'C07.T')
 M('C07', 'its-deploy-remote-auth-late-equiv', ITS, '        caller.require_auth();\n\n        let deploy_salt = Self::interchain_token_deploy_salt(env, caller.clone(), salt);\n\n        Self::deploy_remote_token',
   '        let deploy_salt = Self::interchain_token_deploy_salt(env, caller.clone(), salt);\n        caller.require_auth();\n\n        Self::deploy_remote_token', equiv=True)
+
+# ---------------- C17 ----------------
+M('C17', 'execute-no-membership', OPS, '        ensure!(\n            env.storage().instance().has(&key),\n            ContractError::NotAnOperator\n        );\n\n        let res: Val', '        let _ = &key;\n        let res: Val', 'C17.R1')
+M('C17', 'execute-membership-of-contract', OPS, '        let key = DataKey::Operators(operator);\n\n        ensure!(\n            env.storage().instance().has(&key),\n            ContractError::NotAnOperator',
+  '        let key = DataKey::Operators(contract.clone());\n\n        ensure!(\n            env.storage().instance().has(&key),\n            ContractError::NotAnOperator', 'C17.R1')
+M('C17', 'execute-swallow-failure', OPS, '        let res: Val = env.invoke_contract(&contract, &func, args);',
+  '        let res: Val = match env.try_invoke_contract::<Val, soroban_sdk::Error>(&contract, &func, args) { Ok(Ok(v)) => v, _ => Val::VOID.into() };', 'C17.R2')
+M('C17', 'execute-drop-return', OPS, '        Ok(res)\n    }', '        let _ = res;\n        Ok(Val::VOID.into())\n    }', 'C17.R2')
+M('C17', 'add-allows-duplicate', OPS, '        ensure!(\n            !env.storage().instance().has(&key),\n            ContractError::OperatorAlreadyAdded\n        );\n', '', 'C17.R3')
+M('C17', 'remove-absent-ok', OPS, '        ensure!(\n            env.storage().instance().has(&key),\n            ContractError::NotAnOperator\n        );\n\n        env.storage().instance().remove(&key);', '        env.storage().instance().remove(&key);', 'C17.R3')
+M('C17', 'execute-twice', OPS, '        let res: Val = env.invoke_contract(&contract, &func, args);', '        let _r: Val = env.invoke_contract(&contract, &func, args.clone());\n        let res: Val = env.invoke_contract(&contract, &func, args);', 'C17.R2')
+
+# ---------------- C15 ----------------
+M('C15', 'migrate-no-window-check', UPI, '    ensure_is_migrating(env)?;\n\n    custom_migration();', '    custom_migration();', 'C15.R2')
+M('C15', 'migrate-keeps-window-open', UPI, '    custom_migration();\n    complete_migration(env);', '    custom_migration();', 'C15.R2')
+M('C15', 'migrate-no-owner', UPI, ') -> Result<(), MigrationError> {\n    T::owner(env).require_auth();\n', ') -> Result<(), MigrationError> {\n', 'C15.R2')
+M('C15', 'upgrade-no-window', UPI, '    env.deployer().update_current_contract_wasm(new_wasm_hash);\n    start_migration(env);', '    env.deployer().update_current_contract_wasm(new_wasm_hash);', 'C15.R1')
+M('C15', 'upgrader-no-same-version-check', UPG, '        ensure!(\n            contract_client.version() != new_version,\n            ContractError::SameVersion\n        );\n', '', 'C15.R4')
+M('C15', 'upgrader-no-final-version-check', UPG, '        ensure!(\n            contract_client.version() == new_version,\n            ContractError::UnexpectedNewVersion\n        );\n', '', 'C15.R4')
+M('C15', 'upgrader-final-check-before-migrate', UPG, '        env.invoke_contract::<()>(&contract_address, &MIGRATE, migration_data);\n\n        ensure!(\n            contract_client.version() == new_version,\n            ContractError::UnexpectedNewVersion\n        );',
+  '        ensure!(\n            contract_client.version() == new_version,\n            ContractError::UnexpectedNewVersion\n        );\n        env.invoke_contract::<()>(&contract_address, &MIGRATE, migration_data);', 'C15.R4')
+M('C15', 'upgrader-try-migrate', UPG, '        env.invoke_contract::<()>(&contract_address, &MIGRATE, migration_data);', '        let _ = env.try_invoke_contract::<(), soroban_sdk::Error>(&contract_address, &MIGRATE, migration_data);', 'C15.R4')
+M('C15', 'migrate-event-wrong-version', UPI, '        version: T::version(env),', '        version: String::from_str(env, "0.0.0"),', 'C15.R2')
+
+# ---------------- C16 ----------------
+M('C16', 'example-discard-validation', EX, '        Self::validate_message(&env, &source_chain, &message_id, &source_address, &payload)\n            .unwrap_or_else(|err| panic_with_error!(env, err));',
+  '        let _ = Self::validate_message(&env, &source_chain, &message_id, &source_address, &payload);', 'C16.R1')
+M('C16', 'its-execute-discard-validation', ITS, '        Self::validate_message(&env, &source_chain, &message_id, &source_address, &payload)\n            .unwrap_or_else(|err| panic_with_error!(env, err));',
+  '        let _ok = Self::validate_message(&env, &source_chain, &message_id, &source_address, &payload).is_ok();', 'C16.R1')
+M('C16', 'default-validate-uses-query', EXE, '            gateway.validate_message(\n                &env.current_contract_address(),\n                source_chain,\n                message_id,\n                source_address,\n                &env.crypto().keccak256(payload).into(),\n            ),',
+  '            gateway.is_message_approved(\n                source_chain,\n                message_id,\n                source_address,\n                &env.current_contract_address(),\n                &env.crypto().keccak256(payload).into(),\n            ),', 'C16')
+M("C16", "default-validate-ignores-result", EXE, "        ensure!(\n            gateway.validate_message(\n                &env.current_contract_address(),\n                source_chain,\n                message_id,\n                source_address,\n                &env.crypto().keccak256(payload).into(),\n            ),\n            ExecutableError::NotApproved\n        );", "        let _unused = gateway.validate_message(\n                &env.current_contract_address(),\n                source_chain,\n                message_id,\n                source_address,\n                &env.crypto().keccak256(payload).into(),\n            );\n        let _e = ExecutableError::NotApproved;", "C16.R1")
+M('C16', 'default-validate-wrong-source-address', EXE, '                message_id,\n                source_address,\n                &env.crypto()', '                message_id,\n                source_chain,\n                &env.crypto()', 'C16.R2')
+M('C16', 'its-execute-swallow-handler-error', ITS, '        Self::execute_message(&env, source_chain, message_id, source_address, payload)\n            .unwrap_or_else(|err| panic_with_error!(env, err));',
+  '        let _ = Self::execute_message(&env, source_chain, message_id, source_address, payload);', 'C16.R3')
+M('C16', 'example-if-let-err-equiv', EX, '        Self::validate_message(&env, &source_chain, &message_id, &source_address, &payload)\n            .unwrap_or_else(|err| panic_with_error!(env, err));',
+  '        if let Err(err) = Self::validate_message(&env, &source_chain, &message_id, &source_address, &payload) {\n            panic_with_error!(env, err);\n        }', equiv=True)
+M('C16', 'example-expect-equiv', EX, '        Self::validate_message(&env, &source_chain, &message_id, &source_address, &payload)\n            .unwrap_or_else(|err| panic_with_error!(env, err));',
+  '        Self::validate_message(&env, &source_chain, &message_id, &source_address, &payload).expect("not approved");', equiv=True)
